@@ -211,6 +211,44 @@ Proof.
   eexists. repeat split.
 Qed.
 
+(* ... and that is the only way success can come with anything but exactly the value: whenever FileSink reports success the
+   destination received the whole value, preceded at most by the prefix of it that a failed first Write had accepted *)
+Theorem filesink_success_shape k fmt t F cs : filesink_process k fmt t F = (SOk, cs) -> k <> PNull ->
+  exists val, lookup (eff_format fmt) t = Some val /\
+    (received cs = val \/ exists n, fs_w1 F val = (n, true) \/ fs_w1 F val = (n, false) /\ (n < lenN val)%N) /\
+    exists n, received cs = firstn n val ++ val.
+Proof.
+  intros H Hk. unfold filesink_process in H. destruct (lookup (eff_format fmt) t) as [val|] eqn:El.
+  2:{ destruct k; try contradiction; discriminate. }
+  exists val. split; [reflexivity|].
+  assert (Hw1 : forall w c1, write_to w val = (SOk, c1) -> received c1 = val) by (intros w c1; apply write_to_ok_received).
+  assert (Hdirect : forall c1, received c1 = val -> (received c1 = val \/ exists n, fs_w1 F val = (n, true) \/ fs_w1 F val = (n, false) /\ (n < lenN val)%N) /\
+                                              exists n, received c1 = firstn n val ++ val).
+  { intros c1 Hc. split; [left; exact Hc|exists O; rewrite Hc; reflexivity]. }
+  destruct k; [contradiction| | |]; cbn [negb andb] in H.
+  - destruct (write_to (fs_w1 F) val) as [r1 c1] eqn:E1. destruct r1; try discriminate. injection H as <-. apply Hdirect. eapply Hw1; eauto.
+  - destruct (write_to (fs_w1 F) val) as [r1 c1] eqn:E1. destruct r1; try discriminate. injection H as <-. apply Hdirect. eapply Hw1; eauto.
+  - destruct (fs_open_ok F); cbn [negb] in H; [|discriminate].
+    destruct (write_to (fs_w1 F) val) as [r1 c1] eqn:E1. destruct r1; try discriminate.
+    + injection H as <-. apply Hdirect. eapply Hw1; eauto.
+    + destruct (fs_reopen_ok F); [|discriminate]. destruct (write_to (fs_w2 F) val) as [r2 c2] eqn:E2. injection H as -> <-.
+      assert (Hc1 : exists n, received c1 = firstn n val /\ (fs_w1 F val = (N.of_nat n, true) \/ fs_w1 F val = (N.of_nat n, false) /\ (N.of_nat n < lenN val)%N)).
+      { unfold write_to in E1. destruct val as [|x r]; [discriminate|]. destruct (fs_w1 F (x :: r)) as [n err] eqn:Ew.
+        destruct (N.ltb (lenN (x :: r)) n) eqn:El2; [discriminate|]. exists (N.to_nat n). rewrite N2Nat.id.
+        destruct err.
+        - injection E1 as <-. split; [unfold received, taken; cbn [map concat fst snd]; apply app_nil_r|left; reflexivity].
+        - destruct (N.eqb n (lenN (x :: r))) eqn:En; [discriminate|]. injection E1 as <-.
+          split; [unfold received, taken; cbn [map concat fst snd]; apply app_nil_r|right; split; [reflexivity|]].
+          apply N.ltb_ge in El2. apply N.eqb_neq in En. lia. }
+      destruct Hc1 as [n [Hr1 Hw]]. assert (Hr : received (c1 ++ c2) = firstn n val ++ val).
+      { unfold received. rewrite map_app, concat_app. fold (received c1). fold (received c2). rewrite Hr1. f_equal. eapply Hw1; eauto. }
+      split; [right; exists (N.of_nat n); exact Hw|exists n; exact Hr].
+Qed.
+
+Corollary filesink_success_prefix_then_value k fmt t F cs : filesink_process k fmt t F = (SOk, cs) -> k <> PNull ->
+  exists val n, lookup (eff_format fmt) t = Some val /\ received cs = firstn n val ++ val.
+Proof. intros H Hk. destruct (filesink_success_shape k fmt t F cs H Hk) as [val [Hl [_ [n Hn]]]]. exists val, n. split; assumption. Qed.
+
 (* ================= concurrent writer.Sink.Process calls ================= *)
 
 Definition cinv (vals : nat -> option (list N)) (s : cstate) : Prop :=
